@@ -39,10 +39,15 @@ type objects struct {
 }
 
 type checkCtx struct {
-	lid      mtypes.LeaseID
-	ns       string // lidNS(lid) as computed by the real code
-	st       kube.Settings
-	group    *manifest.Group
+	lid   mtypes.LeaseID
+	ns    string // lidNS(lid) as computed by the real code
+	st    kube.Settings
+	group *manifest.Group
+	// prev: the manifest group that was deployed before an update whose Deploy did not complete (an
+	// injected API error). The API server may then legitimately hold objects generated for either
+	// manifest: an object passes if it satisfies the clauses under the asked-for group or under prev,
+	// and ports exposed globally by either manifest count as exposed.
+	prev     *manifest.Group
 	strictNS bool // objects come from the API server: metadata.namespace must be set
 	// foreign namespaces (other leases' namespace objects, built by the real nsBuilder) used as
 	// traffic sources/destinations in the network-policy model
@@ -400,12 +405,21 @@ func (c *checkCtx) checkNetPols(nsObj *corev1.Namespace, pols []*netv1.NetworkPo
 	sort.Strings(names)
 	for _, svcName := range names {
 		pl := pods[svcName]
-		svc := c.svc(svcName)
-		if svc == nil {
+		var exposes []manifest.ServiceExpose
+		if svc := c.svc(svcName); svc != nil {
+			exposes = append(exposes, svc.Expose...)
+		}
+		if c.prev != nil {
+			for i := range c.prev.Services {
+				if c.prev.Services[i].Name == svcName {
+					exposes = append(exposes, c.prev.Services[i].Expose...)
+				}
+			}
+		} else if c.svc(svcName) == nil {
 			continue
 		}
 		global := map[protoPort]bool{}
-		for _, e := range svc.Expose {
+		for _, e := range exposes {
 			if !e.Global {
 				continue
 			}
@@ -469,6 +483,26 @@ func (c *checkCtx) checkNetPols(nsObj *corev1.Namespace, pols []*netv1.NetworkPo
 	}
 }
 
+// either judges one object under the asked-for group and, when that fails and a previous group is
+// known (partial update), under the previous group; the object passes if one of them has no complaint.
+func (c *checkCtx) either(f func(*checkCtx)) {
+	a := *c
+	a.out, a.memo = nil, nil
+	f(&a)
+	if len(a.out) == 0 {
+		return
+	}
+	if c.prev != nil {
+		b := *c
+		b.out, b.memo, b.group = nil, nil, c.prev
+		f(&b)
+		if len(b.out) == 0 {
+			return
+		}
+	}
+	c.out = append(c.out, a.out...)
+}
+
 // checkAll runs every clause on one object set.
 func (c *checkCtx) checkAll(o *objects, checkRuntimeClass bool) {
 	var nsObj *corev1.Namespace
@@ -478,13 +512,16 @@ func (c *checkCtx) checkAll(o *objects, checkRuntimeClass bool) {
 	}
 	pods := podLabelsOf(o.Deployments)
 	for _, d := range o.Deployments {
-		c.checkDeployment(d, checkRuntimeClass)
+		d := d
+		c.either(func(x *checkCtx) { x.checkDeployment(d, checkRuntimeClass) })
 	}
 	for _, s := range o.Services {
-		c.checkService(s, pods)
+		s := s
+		c.either(func(x *checkCtx) { x.checkService(s, pods) })
 	}
 	for _, in := range o.Ingresses {
-		c.checkIngress(in)
+		in := in
+		c.either(func(x *checkCtx) { x.checkIngress(in) })
 	}
 	if nsObj != nil {
 		c.checkNetPols(nsObj, o.NetPols, pods)
